@@ -3,8 +3,12 @@ package main
 import (
 	"fmt"
 	"math/rand"
+	"strconv"
 	"strings"
 
+	"github.com/ldclabs/cose/cose"
+	"github.com/ldclabs/cose/cwt"
+	"github.com/ldclabs/cose/iana"
 	"github.com/ldclabs/cose/key"
 )
 
@@ -61,14 +65,70 @@ func execWrongType(op string, a []string) string {
 		}
 		return "rejected"
 	case "cbor.encdup":
+		// every way the library encodes a label map: the generic entry point and each named map type with its own
+		// MarshalCBOR, alone and as a member of a wire structure
 		v, _ := parseVal(a, 0)
-		out, err := key.MarshalCBOR(v)
-		if err != nil {
-			return "no-dup"
+		forms := []any{v}
+		if m, ok := v.(key.CoseMap); ok {
+			mm := map[any]any(m)
+			forms = append(forms, cose.Headers(mm), key.Key(mm), cwt.ClaimsMap(mm), key.CoseMap(mm),
+				[]any{cose.Headers(mm)}, &cose.Recipient{Protected: cose.Headers{}, Unprotected: cose.Headers(mm)},
+				cose.KDFContext{SuppPubInfo: cose.SuppPubInfo{KeyDataLength: 128, Protected: cose.Headers(mm)}})
 		}
-		var back any
-		if key.UnmarshalCBOR(out, &back) != nil {
-			return "emitted-undecodable " + hx(out)
+		for _, f := range forms {
+			out, err := key.MarshalCBOR(f)
+			if err != nil {
+				continue
+			}
+			var back any
+			if key.UnmarshalCBOR(out, &back) != nil {
+				return fmt.Sprintf("emitted-undecodable %T %s", f, hx(out))
+			}
+		}
+		return "no-dup"
+	case "wire.msgdup":
+		// wire.msgdup <kind> <alg> <keyhex> <bucket p|u> <label token> <value token…>: a message whose header bucket holds a
+		// label the library itself also sets (alg 1, kid 4, IV 5), given under another Go integer kind.  Whatever the
+		// library emits must be decodable by the library and verify / decrypt under the same key.
+		alg, _ := strconv.Atoi(a[1])
+		kb := unhx(a[2])
+		lab, _ := parseVal(a[4:5], 0)
+		val, _ := parseVal(a[5:], 0)
+		h := cose.Headers{lab: val}
+		prot, unprot := cose.Headers{}, cose.Headers{}
+		if a[3] == "p" {
+			prot = h
+		} else {
+			unprot = h
+		}
+		k := key.Key{iana.KeyParameterKty: iana.KeyTypeSymmetric, iana.KeyParameterAlg: alg, iana.SymmetricKeyParameterK: kb, iana.KeyParameterKid: []byte("k1")}
+		switch a[0] {
+		case "encrypt0":
+			e, err := k.Encryptor()
+			if err != nil {
+				return "bad-op"
+			}
+			out, err := (&cose.Encrypt0Message[[]byte]{Protected: prot, Unprotected: unprot, Payload: []byte("p")}).EncryptAndEncode(e, nil)
+			if err != nil {
+				return "no-dup"
+			}
+			if _, err := cose.DecryptEncrypt0Message[[]byte](e, out, nil); err != nil {
+				return "emitted-unusable " + hx(out)
+			}
+		case "mac0":
+			m, err := k.MACer()
+			if err != nil {
+				return "bad-op"
+			}
+			out, err := (&cose.Mac0Message[[]byte]{Protected: prot, Unprotected: unprot, Payload: []byte("p")}).ComputeAndEncode(m, nil)
+			if err != nil {
+				return "no-dup"
+			}
+			if _, err := cose.VerifyMac0Message[[]byte](m, out, nil); err != nil {
+				return "emitted-unusable " + hx(out)
+			}
+		default:
+			return "bad-op"
 		}
 		return "no-dup"
 	}
@@ -144,6 +204,9 @@ func genWrongType(r *rand.Rand, n int) []string {
 			}
 			out = append(out, fmt.Sprintf("wire.badbucket %s %s", kind, hx(replaceSpan(p.data, spans[0], bstrItem(bad)))))
 		}
+		if i%5 == 0 {
+			out = append(out, genMsgDup(r))
+		}
 		if i%10 == 0 {
 			out = append(out, "cbor.encdup { int:1 int:7 i64:1 int:8 }", "cbor.encdup { u8:3 t:61 i16:3 t:62 int:3 t:63 }")
 		}
@@ -201,4 +264,25 @@ func headArg(b []byte) uint64 {
 		return uint64(b[1])<<24 | uint64(b[2])<<16 | uint64(b[3])<<8 | uint64(b[4])
 	}
 	return 0
+}
+
+// a header label the library sets itself, supplied by the caller under another Go integer kind
+func genMsgDup(r *rand.Rand) string {
+	kind := []string{"encrypt0", "mac0"}[r.Intn(2)]
+	algs := algsForKind(kind)
+	alg := algs[r.Intn(len(algs))]
+	kb := randBytes(r, keySizeOf(alg))
+	ik := []string{"i8", "i16", "i32", "i64", "u", "u8", "u16", "u32", "u64", "int"}[r.Intn(10)]
+	switch r.Intn(3) {
+	case 0: // alg, protected
+		return fmt.Sprintf("wire.msgdup %s %d %s p %s:1 int:%d", kind, alg, hx(kb), ik, alg)
+	case 1: // kid, unprotected
+		return fmt.Sprintf("wire.msgdup %s %d %s u %s:4 b:6b31", kind, alg, hx(kb), ik)
+	default: // IV, unprotected
+		ns := 12
+		if kind == "encrypt0" {
+			ns = nonceSizeOf(alg)
+		}
+		return fmt.Sprintf("wire.msgdup %s %d %s u %s:5 b:%s", kind, alg, hx(kb), ik, hx(randBytes(r, ns)))
+	}
 }
